@@ -16,6 +16,7 @@ from harness.util import import_df, js, attempt
 
 df = import_df()
 
+COQ_MAX_VALUES = 300      # target cells x components evaluated inside Coq per case (cost)
 SCALES = ["1", "1", "1", "1/1000000000", "1000", "1/10", "7/1000"]
 
 
@@ -177,10 +178,10 @@ SP = signed_perms()
 
 
 # ------------------------------------------------------------------ fields
-def gen_field(rng, tier, nv=None, data=None, cubic=False, nmax=None):
-    nmax = nmax or (4 if tier == "quick" else 6)
+def gen_field(rng, tier, nv=None, data=None, cubic=False, nmax=None, big=None):
+    nmax = nmax or (4 if tier == "quick" else 5)
     n = [rng.randint(1, nmax) for _ in range(3)]
-    while math.prod(n) > (40 if tier == "quick" else 120):
+    while math.prod(n) > (big or (12 if tier == "quick" else 18)):
         n[rng.randrange(3)] = max(1, n[rng.randrange(3)] - 1)
     sc = F(rng.choice(SCALES))
     if cubic:
@@ -257,7 +258,7 @@ def gen_ops(rng, tier, maxlen=4):
 
 
 def rnd_n(rng, tier):
-    m = 4 if tier == "quick" else 6
+    m = 4 if tier == "quick" else 5
     return [rng.randint(1, m) for _ in range(3)]
 
 
@@ -265,7 +266,7 @@ def generate(rng, tier):
     cases = []
     quick = tier == "quick"
     # (a) random sequences of rotations, all input methods
-    for _ in range(110 if quick else 1100):
+    for _ in range(80 if quick else 800):
         f = gen_field(rng, tier)
         ops = gen_ops(rng, tier)
         for o in ops:
@@ -277,7 +278,7 @@ def generate(rng, tier):
     # (b) one case per input method with each kind of data, default n
     for m in ["from_quat", "from_matrix", "from_rotvec", "from_mrp", "from_euler", "align_vector"]:
         for data in ["uniform", "linear", "random"]:
-            for nv in ([1, 3] if quick else [1, 3, 3, 3]):
+            for nv in ([rng.choice([1, 3, 3])] if quick else [1, 3, 3, 3]):
                 cases.append(dict(kind="rot", field=gen_field(rng, tier, nv=nv, data=data),
                                   ops=[gen_rot(rng, m)], style=rng.random() < 0.5))
     # (c) the 24 proper signed permutation matrices (cubic and anisotropic cells)
@@ -288,7 +289,7 @@ def generate(rng, tier):
             op = dict(op="rot", method="from_matrix", a=dict(matrix=[[g.qs(x) for x in r] for r in M]))
             cases.append(dict(kind="lattice", field=f, ops=[op], style=True, sp=i))
     # (d) quarter turns about a coordinate axis vs the lattice rotation (cubic cells)
-    for _ in range(12 if quick else 60):
+    for _ in range(9 if quick else 60):
         f = gen_field(rng, tier, cubic=True, data="random")
         ax = rng.randrange(3)
         k = rng.choice([1, 2, 3, -1, 5])
@@ -297,7 +298,7 @@ def generate(rng, tier):
             op = dict(op="rot", method="from_euler", a=dict(seq="xyz"[ax], angles=g.qs(90.0 * k), degrees=True))
         cases.append(dict(kind="quarter", field=f, ops=[op], style=True, ax=ax, k=k))
     # (e) threshold-directed: identity / tiny rotations with explicit fine n (edge padding, zero fill band)
-    for _ in range(25 if quick else 200):
+    for _ in range(20 if quick else 200):
         f = gen_field(rng, tier, nmax=3)
         r = rng.random()
         if r < 0.4:
@@ -308,8 +309,14 @@ def generate(rng, tier):
             op = dict(op="rot", method="from_rotvec", a=dict(rotvec=[g.qs(x) for x in v], degrees=False))
         else:
             op = dict(op="rot", method="from_euler", a=dict(seq="z", angles=g.qs(45.0), degrees=True))
-        op["n"] = [rng.randint(1, 7) for _ in range(3)]
+        op["n"] = [rng.randint(1, 5) for _ in range(3)]
+        while math.prod(op["n"]) > 40:
+            op["n"][rng.randrange(3)] -= 1
         cases.append(dict(kind="resample", field=f, ops=[op], style=rng.random() < 0.5))
+    # (h) larger meshes: oracle only (interior / outside / composition clauses), no Coq record
+    for _ in range(40 if quick else 300):
+        f = gen_field(rng, tier, nmax=8, big=400)
+        cases.append(dict(kind="rot", field=f, ops=gen_ops(rng, tier), style=rng.random() < 0.5, nocoq=True))
     # (f) refusals
     for _ in range(60 if quick else 300):
         ndim = rng.choice([1, 2, 3, 3, 3, 3, 4])
@@ -482,8 +489,9 @@ def run_rot(c):
         else:
             ne = o.get("n")
             ops_coq.append(f"ORot {qm(M)} " + ("None" if ne is None else f"(Some {qn3(ne)})"))
-    rec["coq"] = (f"CRot {qv(pmin)} {qv(pmax)} {qn3(n)} {g.nat(nv)} {g.nl(perm)} {g.ql(before.reshape(-1))} "
-                  f"{g.lst(ops_coq)} {qn3(on)} {qv(opmin)} {qv(opmax)} {g.ql(oarr.reshape(-1))}")
+    if not c.get("nocoq") and math.prod(on) * nv <= COQ_MAX_VALUES:
+        rec["coq"] = (f"CRot {qv(pmin)} {qv(pmax)} {qn3(n)} {g.nat(nv)} {g.nl(perm)} {g.ql(before.reshape(-1))} "
+                      f"{g.lst(ops_coq)} {qn3(on)} {qv(opmin)} {qv(opmax)} {g.ql(oarr.reshape(-1))}")
     methods = tuple(o.get("method", "clear") for o in c["ops"])
     rec.update(obs=obs, size=len(fc["vals"]) * 10 + len(c["ops"]),
                key=f"{c['kind']}/{nv}/{fc['data']}/{methods}/{tuple(perm)}/{tuple(n)}/{last_n is not None}/{c.get('sp')}",
@@ -574,6 +582,7 @@ def stats(records):
         if r["kind"] == "badmethod":
             continue
         out["rot_cases"] += 1
+        out["oracle_only"] = out.get("oracle_only", 0) + int(r.get("coq") is None)
         out["interior_cells"] += r.get("interior", 0)
         out["outside_cells"] += r.get("outside", 0)
         out["cleared_final"] += int(c["ops"][-1]["op"] == "clear")
